@@ -11,11 +11,11 @@ import (
 )
 
 // Shapes lists the shapes Model knows.
-var Shapes = []string{"star", "wide", "caterpillar", "bushy", "binary"}
+var Shapes = []string{"star", "wide", "caterpillar", "bushy", "binary", "ubinary"}
 
 // Model returns a tree with n tips t0..t(n-1): "star" (one inner node), "wide" (an inner node with
 // n-4 children inside a small tree), "caterpillar" (unrooted, n-2 levels deep), "bushy" (2-4
-// children per node), "binary" (rooted, 2 children per node, breadth first). Lengths take a few
+// children per node), "binary" (rooted, 2 children per node, breadth first), "ubinary" (the same below a root of degree three). Lengths take a few
 // dyadic values (0, 0.125 ... 3.5), every third inner branch of bushy and binary trees has a
 // support in {0, 0.1 ... 1}; the values repeat, so that thresholds select many branches at once.
 func Model(shape string, n int) *ref.Node {
